@@ -35,6 +35,9 @@ type modelStore struct {
 	// StreamFault returns the index of the Read at which a Get's stream
 	// fails (-1 = never).
 	StreamFault func(d digest.Digest) int
+	// CommitFault returns an error with which a Put fails after it has
+	// consumed the complete upload (nothing is stored); nil = none.
+	CommitFault func(d digest.Digest) error
 	ProtoAC     bool           // objects are ActionResult messages (AC backend)
 	// TrackSources: keep the close-counting statistics of every stream handed out
 	TrackSources bool
@@ -164,6 +167,14 @@ func (m *modelStore) Put(ctx context.Context, d digest.Digest, b buffer.Buffer) 
 	if err != nil {
 		m.leave(call, err)
 		return err
+	}
+	if m.CommitFault != nil {
+		if err := m.CommitFault(d); err != nil {
+			call.Err, call.Injected = err, true
+			m.c.Count("fault_backend_put_commit_error", 1)
+			m.leave(call, err)
+			return err
+		}
 	}
 	m.Objs[m.key(d)] = data
 	m.leave(call, nil)
